@@ -29,17 +29,33 @@ class Tape(object):
             read_values=Builtin('read_values', self._read_values),
             read_value_line=Builtin('read_value_line', self._read_value_line),
             readline=Builtin('readline', self._readline),
-            parse_string=Builtin('parse_string', self._parse_string))
+            parse_string=Builtin('parse_string', self._parse_string),
+            close=Builtin('close', lambda eng: None))
         self.obj = o
+        self.lines = None
 
     def _write_value_line(self, eng, d, kind):
         names = self.spec[kind][0]
         self.recs.append(('rec', kind, [d.get(n) if isinstance(d, dict) and n in d else None for n in names]))
 
     def _next(self):
-        if self.pos >= len(self.recs):
+        # raw text is handed out line by line
+        if self.lines is None or self.lines[0] is not self.recs:
+            flat = []
+            for r in self.recs:
+                if r[0] == 'raw':
+                    parts = r[1].split('\n')
+                    flat += [('raw', x + '\n') for x in parts[:-1]] + ([('raw', parts[-1])] if parts[-1] else [])
+                else:
+                    flat.append(r)
+            self.lines = (self.recs, flat, len(self.recs))
+        if self.lines[2] != len(self.recs):
+            self.lines = None
+            return self._next()
+        flat = self.lines[1]
+        if self.pos >= len(flat):
             return ('raw', '')
-        r = self.recs[self.pos]
+        r = flat[self.pos]
         self.pos += 1
         return r
 
@@ -48,7 +64,8 @@ class Tape(object):
         if r[0] != 'rec' or r[1] != kind:
             self.errors.append('reader expects a %r record, tape holds %r' % (kind, r[:2]))
             return [None] * len(self.spec[kind][1])
-        return list(r[2])
+        vals = list(r[2])
+        return vals + [None] * (len(self.spec[kind][1]) - len(vals))     # fields beyond the written ones are blank
 
     def _read_value_line(self, eng, d, kind):
         vals = self._read_values(eng, kind)
@@ -60,14 +77,22 @@ class Tape(object):
         r = self._next()
         if r[0] == 'raw':
             return r[1]
-        return ('LINE', r)          # a record handed over as a line (to be parsed with parse_string)
+        # a record handed over as a line (to be parsed with parse_string): a token that behaves like a
+        # non-blank line that starts with no keyword
+        tok = Obj(None)
+        tok.fields.update(record=r, strip=Builtin('strip', lambda eng: 'x'), startswith=Builtin('startswith', lambda eng, s: False),
+                          ljust=Builtin('ljust', lambda eng, n: tok), rstrip=Builtin('rstrip', lambda eng, *a: tok))
+        return tok
 
     def _parse_string(self, eng, line, kind):
-        if isinstance(line, tuple) and line[0] == 'LINE':
-            r = line[1]
-            if r[1] != kind:
-                self.errors.append('line parsed as %r but written as %r' % (kind, r[1]))
-            return list(r[2])
+        if isinstance(line, Obj) and 'record' in line.fields:
+            r = line.fields['record']
+            names_w, names_r = self.spec[r[1]][0], self.spec[kind][0]
+            fm_w, fm_r = self.spec[r[1]][1], self.spec[kind][1]
+            if r[1] != kind and fm_w[:len(fm_r)] != fm_r[:len(fm_w)][:len(fm_r)] and fm_r[:len(fm_w)] != fm_w:
+                self.errors.append('line written as %r parsed as %r (different column layout)' % (r[1], kind))
+            vals = list(r[2])
+            return (vals + [None] * len(fm_r))[:len(fm_r)]
         return [None] * len(self.spec[kind][1])
 
     def rewind(self):
